@@ -26,6 +26,23 @@ PROP = dict(
          "exported when it has non-export glyphs; every exported glyph is drawn with skrifa at every master location "
          "and compared with the harness's own resolution of the source. One model case per source and master location "
          "(all option subsets that built): IR glyph order, contours, components and advances against FV.C12.Model.process. "
+         "About half of the variable sources give one or two contour-only glyphs an intermediate (brace) source; "
+         "outlines and advances are compared at every location at which any glyph has a source. Reference at such a "
+         "location L for glyph g: if g or a glyph it transitively refers to has a source at L, every glyph on the way "
+         "is taken at L (own source, else linear interpolation of its own sources) and resolved; otherwise - no build "
+         "can know L for g - the variation model's value, i.e. the linear interpolation of g's resolved outlines at the "
+         "two neighbouring masters (equal to the former when all 2x2 parts are the same at all masters; a glyph whose "
+         "2x2 differs between masters is stored as a simple glyph by every option subset, so only this is what is "
+         "drawn). Outline tolerance: one unit per nesting level, beyond that the format bound (per level: row sum of "
+         "the 2x2 times the error below + 1/2 for the rounded offset + F2Dot14 error times coordinate size; base points "
+         "1/2 at the default location and 1 elsewhere because gvar IUP may drop deltas within 1/2; + 1 for the rounding "
+         "of reference and rasteriser). Advances: exact at the default location; elsewhere the font gives default + "
+         "sum of scalar*round(delta) with at most two active regions on one axis, so within 1 of an own source advance "
+         "and within 2 of an interpolated one; across option subsets equal at the default location and within 1 "
+         "elsewhere. Fixed sources also include the deep-intermediate-master chain and the composite-with-brace-layer "
+         "source of the known finding flatten-drops-intermediate-master-of-nested-composite. "
+         "Besides the per-location model cases there is one ':locations' case per source with an intermediate location "
+         "and export mode: every IR glyph left without components has a source wherever FV.C12.Locs collects one. "
          "A case is non-trivial when the source has a composite; distinct = distinct (source, master).",
     trusted_base=["Coq 8.16.1 kernel (coqc, vm_compute for case evaluation)",
                   "hand-written model FV.C12.Model tied to fontir GlyphOrderWork::exec (IR read back through "
